@@ -540,9 +540,9 @@ GENERATORS = {
 COUNTS = {"quick": {"sqrt": 1500, "sqrt_bd": 1500, "sigfig": 2500, "cmp_int": 1000, "cmp_bd": 1000, "cmp_dec": 1000,
                     "bsearch": 1500, "bsearch_bd": 800, "exp2": 1500, "log2": 220, "ln": 70, "ticklog": 70, "customlog": 50,
                     "pow": 300, "powapprox": 200, "bd_power": 200},
-          "thorough": {"sqrt": 30000, "sqrt_bd": 30000, "sigfig": 50000, "cmp_int": 25000, "cmp_bd": 25000, "cmp_dec": 25000,
-                       "bsearch": 25000, "bsearch_bd": 12000, "exp2": 60000, "log2": 4000, "ln": 1500, "ticklog": 1500,
-                       "customlog": 1000, "pow": 6000, "powapprox": 4000, "bd_power": 3000}}
+          "thorough": {"sqrt": 20000, "sqrt_bd": 20000, "sigfig": 30000, "cmp_int": 15000, "cmp_bd": 15000, "cmp_dec": 15000,
+                       "bsearch": 15000, "bsearch_bd": 8000, "exp2": 40000, "log2": 3000, "ln": 1000, "ticklog": 1000,
+                       "customlog": 700, "pow": 4000, "powapprox": 3000, "bd_power": 2000}}
 
 
 def gen_cases(seed, tier, ops=None, scale=1):
@@ -689,16 +689,16 @@ def fx(v):
 
 def oracle_exp2(c, o):
     e = args_of(c)[0]
-    if e < 0 or e > MAX_EXP2:
-        if o["st"] == 0:
-            return [viol(c, o, "exponent outside [0, 512] returned %s instead of failing" % o["v"], kind="fail_loudly")]
-        return []
+    outside = e < 0 or e > MAX_EXP2
     if o["st"] != 0:
-        return [viol(c, o, "in-domain exponent failed: %s" % o.get("msg"), kind="unexpected_error")]
+        return [] if outside else [viol(c, o, "in-domain exponent failed: %s" % o.get("msg"), kind="unexpected_error")]
     res = Fraction(int(o["v"][0]), P36)
     true = ref.to_fraction(*ref.exp2_frac(Fraction(e, P36)))
     rel = abs(res / true - 1)
     if rel > Fraction(1, 10 ** 18):
+        if outside:
+            return [viol(c, o, "exponent outside [0, 512] returned the wrong number %s (relative error %.3e) instead of failing" % (o["v"][0], float(rel)),
+                         kind="fail_loudly")]
         return [viol(c, o, "2^x off by a relative %.3e (> 1e-18): got %s, 2^x = %.40g" % (float(rel), o["v"][0], float(true)), kind="exp2_bound",
                      rel_err="%.3e" % float(rel))]
     return []
@@ -755,10 +755,11 @@ def oracle_pow(c, o):
     base, e = a[0], a[1]
     approx = c["op"] == "powapprox"
     prec = a[2] if approx else POW_PRECISION
-    if base <= 0 or (base >= 2 * P18 and not approx) or (base > 2 * P18 and approx):
+    if base <= 0:
         if o["st"] == 0:
             return [viol(c, o, "base outside the domain returned %s instead of failing" % o["v"], kind="fail_loudly", op="Pow", base_class="out_of_domain")]
         return []
+    out_of_domain = (base >= 2 * P18 and not approx) or (base > 2 * P18 and approx)
     if o["st"] != 0:
         return []                   # iteration limit / overflow: loud
     if approx and not (0 <= e < P18 and 10 ** 8 <= prec <= 10 ** 14):
@@ -776,6 +777,10 @@ def oracle_pow(c, o):
     ipow = Fraction(base, P18) ** (e // P18) if e >= 0 else Fraction(1)
     bound = (Fraction(prec, P18) + Fraction(1, 10 ** 12)) * max(1, ipow)
     if err > bound:
+        if out_of_domain:
+            # "outside the domain the functions fail loudly instead of returning a wrong number": a value was returned and it is wrong
+            return [viol(c, o, "base outside the domain returned the wrong number %s (base^exp = %.20g) instead of failing" % (o["v"][0], float(true)),
+                         kind="fail_loudly", op="Pow", base_class="out_of_domain")]
         rec = pow_rec(base, e)
         return [viol(c, o, "off by %.3e, documented precision %.1e (x integer power %.3g): got %s, base^exp = %.20g"
                      % (float(err), float(Fraction(prec, P18)), float(max(1, ipow)), o["v"][0], float(true)), kind="pow_bound", fn=c["op"], **rec)]
